@@ -134,6 +134,7 @@ class Result:
         "seam_counts",
         "known",
         "counts",
+        "events",
     )
 
     def __init__(self):
@@ -151,6 +152,7 @@ class Result:
         self.seam_counts = {}
         self.known = []
         self.counts = {}
+        self.events = None
 
     def probe(self, name, n=1):
         self.probes[name] = self.probes.get(name, 0) + n
